@@ -481,7 +481,8 @@ func getParamsCount(stmt sqlparser.Statement) (int, error) {
 
 func (handler *Handler) handleStatementExecute(ctx context.Context, packet *Packet) (uint32, error) {
 	packetData := packet.GetData()
-	if len(packetData) < 2 {
+	// command byte + 4 bytes of statement id
+	if len(packetData) < 5 {
 		handler.logger.Debug("Execute statement packet has not enough data")
 		return 0, ErrInvalidResponseLength
 	}
@@ -619,6 +620,9 @@ func (handler *Handler) processBinaryDataRow(ctx context.Context, rowData []byte
 	// 1 - packet header
 	// 7 + 2 offset from docs
 	pos = 1 + ((len(fields) + 7 + 2) >> 3)
+	if len(rowData) < pos {
+		return nil, base_mysql.ErrMalformPacket
+	}
 	nullBitmap := rowData[1:pos]
 	output = append(output, rowData[:pos]...)
 
@@ -664,29 +668,40 @@ func (handler *Handler) extractData(pos int, rowData []byte, field *ColumnDescri
 		fieldType = field.originType
 	}
 
+	// fixed-size values: the row comes from the wire and may be shorter than its column list promises
+	fixed := func(size int) ([]byte, int, error) {
+		if pos < 0 || pos > len(rowData) || len(rowData)-pos < size {
+			return nil, 0, base_mysql.ErrMalformPacket
+		}
+		return rowData[pos : pos+size], size, nil
+	}
+
 	switch fieldType {
 	case base_mysql.TypeNull:
 		return []byte{}, 0, nil
 
 	case base_mysql.TypeTiny:
-		return rowData[pos : pos+1], 1, nil
+		return fixed(1)
 
 	case base_mysql.TypeShort, base_mysql.TypeYear:
-		return rowData[pos : pos+2], 2, nil
+		return fixed(2)
 
 	case base_mysql.TypeInt24, base_mysql.TypeLong:
-		return rowData[pos : pos+4], 4, nil
+		return fixed(4)
 
 	case base_mysql.TypeLongLong:
-		return rowData[pos : pos+8], 8, nil
+		return fixed(8)
 
 	case base_mysql.TypeFloat:
-		return rowData[pos : pos+4], 4, nil
+		return fixed(4)
 
 	case base_mysql.TypeDouble:
-		return rowData[pos : pos+8], 8, nil
+		return fixed(8)
 
 	case base_mysql.TypeDecimal, base_mysql.TypeNewDecimal, base_mysql.TypeBit, base_mysql.TypeEnum, base_mysql.TypeSet, base_mysql.TypeGeometry, base_mysql.TypeDate, base_mysql.TypeNewDate, base_mysql.TypeTimestamp, base_mysql.TypeDatetime, base_mysql.TypeTime, base_mysql.TypeVarchar, base_mysql.TypeTinyBlob, base_mysql.TypeMediumBlob, base_mysql.TypeLongBlob, base_mysql.TypeBlob, base_mysql.TypeVarString, base_mysql.TypeString:
+		if pos > len(rowData) {
+			return nil, 0, base_mysql.ErrMalformPacket
+		}
 		value, n, err := base_mysql.LengthEncodedString(rowData[pos:])
 		if err != nil {
 			handler.logger.WithError(err).WithField(logging.FieldKeyEventCode, logging.EventCodeErrorDecryptorCantDecryptBinary).
